@@ -202,6 +202,15 @@ func runC09(cfg config) {
 			}
 		}
 	}
+	// values written with the offset a real zone uses just before its clocks change (Newfoundland, New York, London,
+	// Chatham, Lord Howe): under such a process zone (harness seeds 4..7) the offset must be kept all the same
+	for _, e := range []struct {
+		y, m, d, h, mi int
+		off           string
+	}{{2020, 3, 7, 12, 0, "-03:30"}, {2020, 11, 1, 0, 30, "-02:30"}, {2020, 3, 7, 12, 0, "-05:00"}, {2020, 3, 28, 12, 0, "+00:00"}, {2020, 10, 24, 12, 0, "+01:00"},
+		{2020, 4, 4, 12, 0, "+13:45"}, {2020, 9, 26, 12, 0, "+12:45"}, {2020, 10, 3, 12, 0, "+10:30"}, {2021, 4, 3, 12, 0, "+11:00"}} {
+		vals = append(vals, c09DateTime(e.y, e.m, e.d, e.h, e.mi, 0, 0, 5, e.off), c09DateTime(e.y, e.m, e.d, e.h, e.mi, 0, 0, 4, e.off))
+	}
 	for _, t := range [][4]int{{0, 0, 0, 0}, {23, 59, 59, 999}, {10, 30, 15, 250}, {8, 0, 0, 0}, {12, 0, 0, 500}, {23, 0, 0, 0}, {0, 30, 0, 0}} {
 		for prec := 3; prec <= 6; prec++ {
 			vals = append(vals, c09Time(t[0], t[1], t[2], t[3], prec))
@@ -318,7 +327,7 @@ func runC09(cfg config) {
 			}
 		}
 	}
-	sink.finish("month ends, leap days and year edges (thorough: every day of a 4-year leap cycle) x every Date/DateTime/Time precision x offsets {none, Z, +05:30, -11:00} x every calendar keyword singular and plural and UCUM-style/other units x amounts {0,1,11,12,13,23,24,25,59,60,61,365,366,1000, fractional, negative} (quick: three seeded amounts per value and unit) x {+,-}; results are read back from the value's printed form; quantities added/subtracted over equal and different units; process time zone UTC", false)
+	sink.finish("month ends, leap days and year edges (thorough: every day of a 4-year leap cycle) x every Date/DateTime/Time precision x offsets {none, Z, +05:30, -11:00} plus nine values written with the offset of a real zone just before its clock change x every calendar keyword singular and plural and UCUM-style/other units x amounts {0,1,11,12,13,23,24,25,59,60,61,365,366,1000, fractional, negative} (quick: three seeded amounts per value and unit) x {+,-}; results are read back from the value's printed form; quantities added/subtracted over equal and different units; process time zone UTC", false)
 }
 
 // c09ValueIsWhatItPrints: the result, compared (with the comparison `=` uses) with the value its own printed form parses
